@@ -414,6 +414,9 @@ pub fn eval_query(op: &Op, zh: Option<&ZH>, toh: Option<&ZH>, buf: Option<&mut V
             if zh.map_or(0, |h| h.blocks_digest()) ^ toh.map_or(0, |h| h.blocks_digest().rotate_left(1)) != zdig {
                 harness(|| q.findings.push(("C15.interior_write".into(), "zone-memory-modified".into(), format!("{}: a call through a shared reference modified the heap memory of the zone it was given (hidden interior mutability)", op.text()))));
             }
+            if !matches!(op, Op::Now { .. } | Op::UtcNow | Op::Current { .. }) && CLOCK_READS.with(|c| !c.borrow().is_empty()) {
+                harness(|| q.findings.push(("C15.ambient_read".into(), "clock-read-by-an-operation-that-is-given-its-instant".into(), format!("{}: the call read the (simulated) system clock although it takes its instant as an argument: its result can differ between two moments", op.text()))));
+            }
             if let Some((k, n, what)) = &m.ambient {
                 harness(|| q.findings.push(("C15.ambient_read".into(), crate::seam::KINDS[*k].replace(' ', "-"), format!("{}: the call asked the operating system for the {} {n} time(s) (last: {what:?}) - state the simulator does not own and the result must not depend on", op.text(), crate::seam::KINDS[*k]))));
             }
@@ -918,6 +921,9 @@ pub fn run_op<'c>(ctx: &'c Ctx<'c>, me: usize, st: &mut ActorState<'c>, opi: usi
             });
             if let Some(w) = lock().as_mut() {
                 w.in_resolve[me] = false;
+            }
+            if CLOCK_READS.with(|c| !c.borrow().is_empty()) {
+                harness(|| push_violation(armed, "C15.ambient_read", "clock-read-by-an-operation-that-is-given-its-instant", format!("resolving {tzv:?} read the (simulated) system clock")));
             }
             if let Some((k, n, what)) = &m.ambient {
                 harness(|| {
